@@ -21,6 +21,8 @@ pub struct Scenario {
     pub livelock: usize,
     pub max_steps: usize,
     pub drop_yield: bool,
+    /// record the memory manager's ops as "mm" events (validated against MQMemImplTrace)
+    pub mm_trace: bool,
     pub raw: Value,
 }
 
@@ -51,6 +53,7 @@ impl Scenario {
             livelock: v["livelock"].as_u64().unwrap_or(1500) as usize,
             max_steps: v["max_steps"].as_u64().unwrap_or(30000) as usize,
             drop_yield: v["drop_yield"].as_bool().unwrap_or(false),
+            mm_trace: v["mm_trace"].as_bool().unwrap_or(false),
             raw: v.clone(),
         }
     }
@@ -129,6 +132,7 @@ fn log_ret(r: &str, v: i64, same: bool) {
     if t < st.th.len() {
         api = st.th[t].in_call.as_ref().and_then(|c| c["api"].as_str()).unwrap_or("").to_string();
         st.th[t].in_call = None;
+        st.th[t].hold = 0;
         solo = st.th[t].solo_mark.take();
         if !st.th[t].retrying {
             // a finished call of a finite program is progress
@@ -544,6 +548,12 @@ fn register_layout(hname: &str, h: &H) {
             match loc.name {
                 "mm_lock" | "wtf_lock" | "mm_epoch" | "token" => {
                     st.mm_addrs.insert(loc.addr);
+                    if loc.name == "mm_lock" {
+                        st.mm_lock_addr = loc.addr;
+                    }
+                    if loc.name == "wtf_lock" {
+                        st.wtf_lock_addr = loc.addr;
+                    }
                     if loc.name == "mm_epoch" {
                         st.mm_epoch_addr = loc.addr;
                     }
@@ -611,6 +621,10 @@ pub fn run_opt(
         st.tokens.clear();
         st.leaving.clear();
         st.gptr_addr = 0;
+        st.mm_trace = scn.mm_trace && !transparent_mm;
+        st.mm_lock_addr = 0;
+        st.wtf_lock_addr = 0;
+        st.mm_ids.clear();
     }
     payload::reset_serials();
     *TBL.lock().unwrap_or_else(|p| p.into_inner()) = Some(HashMap::new());
@@ -630,6 +644,9 @@ pub fn run_opt(
         register_layout("rx", &rx);
         tbl_put("tx", tx);
         tbl_put("rx", rx);
+    }
+    if let Some(ev) = r.lock().mm_init_event() {
+        api_all.push(ev);
     }
     for (pi, phase) in scn.phases.iter().enumerate() {
         let n = phase.len();
